@@ -32,6 +32,7 @@ CONSTANTS
   SoccFresh,  \* select_on_container_copy_construction returns a different instance
   Ops,        \* names of the operations the scenario enables
   MaxCap, MaxCount, BudSet, NTags, MaxReserve,
+  MaxFault,   \* generator only: allocation-failure indices 1..MaxFault are explored (0: no faults)
   MinCap,     \* generator only: smallest capacity Construct is explored with
   PinAlloc    \* generator only: vector v is always constructed with allocator instance v (bounds who is addressed)
 
@@ -116,7 +117,7 @@ VecOK(r) == \/ r = Absent
                /\ r.st = "moved" => r.elems = <<>>
 
 TypeOK == /\ \A v \in Vecs : VecOK(vec[v])
-          /\ \A x \in Elems : el[x] = Absent \/ (el[x].st \in {"live", "moved"})
+          /\ \A x \in Elems : el[x] = Absent \/ (el[x].st \in {"live", "moved", "unspec"})
           /\ \A x \in Elems : el[x].st = "live" => Len(el[x].e.f) = NP
 
 (* the container-level invariants the properties imply *)
@@ -129,7 +130,7 @@ WithinBudget   == \A v \in Vecs : vec[v].st = "live" => Payload(vec[v].elems) <=
 (***************************************************************************)
 SetVec(S0, v, r) == [S0 EXCEPT !.vec[v] = r]
 
-DefaultPar == [salt |-> 0, cap |-> -1]
+DefaultPar == [salt |-> 0, cap |-> -1, fault |-> 0, thrown |-> 0]
 ParCap(par, dflt) == IF par.cap < 0 THEN dflt ELSE par.cap
 
 \* --- construction / destruction
@@ -224,7 +225,7 @@ EffSwap(S0, v, w) ==
 (***************************************************************************)
 SetEl(S0, x, r) == [S0 EXCEPT !.el[x] = r]
 ELive(S0, x)    == S0.el[x].st = "live"
-EPresent(S0, x) == S0.el[x].st \in {"live", "moved"}
+EPresent(S0, x) == S0.el[x].st \in {"live", "moved", "unspec"}
 InRange(S0, v, i) == Live(S0, v) /\ 0 <= i /\ i < Size(S0, v)
 MovedEl(al) == [st |-> "moved", al |-> al]
 
@@ -246,7 +247,7 @@ EffElemMoveAlloc(S0, x, y, al) ==
   ELSE [S0 EXCEPT !.el[x] = [S0.el[y] EXCEPT !.al = al], !.el[y].e = MovedFromElem(@)]
 
 \* (assignment to / swap with a MOVED-FROM element is not demanded by any listed property; only live targets)
-PreElemAssign(S0, x, y) == ELive(S0, x) /\ ELive(S0, y)
+PreElemAssign(S0, x, y) == (ELive(S0, x) \/ S0.el[x].st = "unspec") /\ ELive(S0, y)
 EffElemCopyAssign(S0, x, y) ==
   IF x = y THEN S0
   ELSE SetEl(S0, x, [st |-> "live", e |-> S0.el[y].e, al |-> IF POCCA THEN S0.el[y].al ELSE S0.el[x].al])
@@ -402,7 +403,39 @@ PreOf(S0, n, v, a) ==
     [] n = "CmpAll"           -> PreCmpAll(S0, v, a[1])
     [] OTHER                  -> FALSE
 
+(***************************************************************************)
+(* Allocation failure (C17).  An operation whose k-th allocation fails     *)
+(* throws; what it leaves behind is constrained, not fixed:                *)
+(*   - constructors: the object does not come into existence, the source   *)
+(*     is untouched;                                                       *)
+(*   - reserve: the vector is COMPLETELY unchanged (strong guarantee);     *)
+(*   - assignments: the target (and for move assignment the source) is     *)
+(*     valid but unspecified - modelled like a moved-from container: it    *)
+(*     may only be cleared, assigned to, swapped or destroyed, and its     *)
+(*     allocator is unknown (al = 0).  That it is really destructible,     *)
+(*     that nothing leaks and every object dies exactly once is judged by  *)
+(*     the ledger and lifetime sub-machines at the end of the history.     *)
+(***************************************************************************)
+FaultOps == {"Construct", "Reserve", "CopyConstruct", "CopyAssign", "MoveAssign", "ElemFromRef", "ElemFromLvRef",
+             "ElemFromRvRef", "ElemCopy", "ElemCopyAlloc", "ElemMoveAlloc", "ElemCopyAssign", "ElemMoveAssign"}
+\* the allocator of an unspecified operand is unknown (0) only if the failed operation could have propagated one
+Unspec(S0, v, prop) == MovedRec(IF prop THEN 0 ELSE S0.vec[v].al)
+\* "unspec" (operand of a failed assignment) differs from "moved" in one respect: C17 demands that it can be
+\* assigned to again
+UnspecEl(S0, x, prop) == [st |-> "unspec", al |-> IF prop THEN 0 ELSE S0.el[x].al]
+ThrowEff(S0, n, v, a) ==
+  CASE n \in {"Construct", "CopyConstruct", "Reserve", "ElemFromRef", "ElemFromLvRef", "ElemFromRvRef", "ElemCopy",
+              "ElemCopyAlloc", "ElemMoveAlloc"} -> S0
+    [] n = "CopyAssign"     -> IF a[1] = v THEN S0 ELSE [S0 EXCEPT !.vec[v] = Unspec(S0, v, POCCA)]
+    [] n = "MoveAssign"     -> IF a[1] = v THEN S0
+                               ELSE [S0 EXCEPT !.vec[v] = Unspec(S0, v, POCMA), !.vec[a[1]] = Unspec(S0, a[1], FALSE)]
+    [] n = "ElemCopyAssign" -> IF a[1] = v THEN S0 ELSE [S0 EXCEPT !.el[v] = UnspecEl(S0, v, POCCA)]
+    [] n = "ElemMoveAssign" -> IF a[1] = v THEN S0
+                               ELSE [S0 EXCEPT !.el[v] = UnspecEl(S0, v, POCMA), !.el[a[1]] = UnspecEl(S0, a[1], FALSE)]
+    [] OTHER                -> S0
+
 EffOf(S0, n, v, a, par) ==
+  IF par.thrown = 1 THEN ThrowEff(S0, n, v, a) ELSE
   CASE n = "Construct"        -> EffConstruct(S0, v, a[1], a[2], a[3])
     [] n = "DefaultConstruct" -> EffDefaultConstruct(S0, v)
     [] n = "Destroy"          -> EffDestroy(S0, v)
@@ -463,11 +496,16 @@ VsSpace == {vs \in [Idx -> 0..MaxCount] : \A k \in Idx : P[k].k # "varying" => v
 UsedTags(v) == {vec[v].elems[i].t : i \in 1..Len(vec[v].elems)}
 FreshTag(v) == IF Tags \ UsedTags(v) = {} THEN 1 ELSE CHOOSE t \in Tags \ UsedTags(v) : \A u \in Tags \ UsedTags(v) : t <= u
 
-Do(n, v, a) ==
+DoPar(n, v, a, k) ==
   /\ n \in Ops
   /\ PreOf(S, n, v, a)
-  /\ LET R == EffOf(S, n, v, a, DefaultPar) IN vec' = R.vec /\ el' = R.el
-  /\ act' = [n |-> n, v |-> v, a |-> a]
+  /\ LET R == EffOf(S, n, v, a, [DefaultPar EXCEPT !.fault = k, !.thrown = IF k > 0 THEN 1 ELSE 0])
+     IN vec' = R.vec /\ el' = R.el
+  /\ act' = [n |-> n, v |-> v, a |-> a, fault |-> k]
+
+\* every operation as it is, and - for the operations that may allocate - with its k-th allocation failing
+Do(n, v, a) == \/ DoPar(n, v, a, 0)
+               \/ (n \in FaultOps /\ \E k \in 1..MaxFault : DoPar(n, v, a, k))
 
 AllocChoice(v)   == IF PinAlloc /\ v \in Allocs THEN {v} ELSE Allocs
 Construct        == \E v \in Vecs, c \in MinCap..MaxCap, b \in BudSet : \E al \in AllocChoice(v) : Do("Construct", v, <<c, b, al>>)
@@ -521,7 +559,7 @@ CmpAll           == \E v \in Vecs, w \in Vecs : Do("CmpAll", v, <<w>>)
 
 Init == /\ vec = [v \in Vecs |-> Absent]
         /\ el = [x \in Elems |-> Absent]
-        /\ act = [n |-> "Init", v |-> 0, a |-> <<>>]
+        /\ act = [n |-> "Init", v |-> 0, a |-> <<>>, fault |-> 0]
 
 Next == \/ Construct \/ DefaultConstruct \/ Destroy \/ EmplaceBack \/ PopBack \/ Erase \/ EraseRange
         \/ Clear \/ Reserve \/ CopyConstruct \/ CopyAssign \/ MoveConstruct \/ MoveAssign \/ Swap
@@ -537,11 +575,15 @@ Spec == Init /\ [][Next]_vars
 (***************************************************************************)
 \* C10: reserve never reduces capacity, never changes contents
 ReserveMonotone ==
-  [][act'.n = "Reserve" =>
+  [][(act'.n = "Reserve" /\ act'.fault = 0) =>
        LET v == act'.v IN /\ vec'[v].cap >= vec[v].cap
                           /\ vec'[v].elems = vec[v].elems
                           /\ (act'.a[1] <= vec[v].cap => vec'[v] = vec[v])
                           /\ (act'.a[1] > vec[v].cap => vec'[v].cap = act'.a[1])]_vars
+
+\* C17: a failed reserve or (copy) construction leaves everything as it was
+FailedReserveUnchanged ==
+  [][(act'.fault > 0 /\ act'.n \in {"Reserve", "Construct", "CopyConstruct"}) => (vec' = vec /\ el' = el)]_vars
 
 \* C16: capacity changes only through reserve beyond capacity, assignment or swap (or construction)
 CapacityStable ==
@@ -581,6 +623,7 @@ SelfOpsStutter ==
 \* C08: allocator changes exactly as std::allocator_traits says
 AllocatorPropagation ==
   [][\A v \in Vecs : (vec[v].st # "absent" /\ vec'[v].st # "absent" /\ vec'[v].al # vec[v].al) =>
+        \/ act'.fault > 0
         \/ (act'.n = "CopyAssign" /\ POCCA) \/ (act'.n = "MoveAssign" /\ POCMA) \/ (act'.n = "Swap" /\ POCS)]_vars
 
 (* hide the ghost label from the fingerprint: every abstract state once *)
